@@ -109,6 +109,8 @@ def run(ctx):
                     if sample is None and 25 < len(cur) < 45:
                         sample = [{k: v for k, v in x.items() if k not in ("hid", "sql")} for x in cur]
                 cur = None
+    ctx.cov["programs"] = kinds.get("stmt", 0)                      # translated statements validated
+    ctx.cov["disagreements_checked"] = len(rejected)                # statements the resolver rejected, each classified (all known findings on the unchanged tree)
     ctx.cov["events_by_kind"] = kinds
     ctx.cov["distinct_nontrivial"] = nontrivial
     if sample:
